@@ -162,6 +162,9 @@ def check_uncert(res, xs, xes, p, via):
     bad = None
     if abs(val - dx) > q / 2 * (1 + Decimal("1e-9")):
         bad = ("value", val)
+    elif (val / q) != (val / q).to_integral_value():
+        # "the value rounded AT the uncertainty's last kept digit": no digits beyond it are shown
+        bad = ("value-shown-beyond-the-last-kept-digit", val)
     elif abs(unc - dxe) > q / 2 * (1 + Decimal("1e-9")):
         # a carry in the uncertainty (9.96 -> 10) may legitimately move the last kept digit up by one
         if not (abs(unc - dxe) <= q * 5 * (1 + Decimal("1e-9")) and str(int(unc / q)).startswith("1")):
